@@ -473,7 +473,7 @@ def rule_atom(S, rule='R-ATOM'):
             return None
 
     def covered(g, call):
-        a, b, c = lc(g['loc']), lc(g['end']), lc(call.get('loc'))
+        a, b, c = lc(g['loc']), lc(g['end']), lc(call.get('call_loc') or call.get('loc'))   # spliced code runs at its call site
         return a is not None and b is not None and c is not None and a[0] == b[0] == c[0] and a[1:] <= c[1:] <= b[1:]
 
     ds = facts.one('yakushima::storage::delete_storage')
